@@ -73,6 +73,11 @@ CHECKS = {
         "note": "Trusted: ast, the analyser, asyncio's documented contract (close/abort release the socket; connection_lost follows a closed transport). Not decided: real elapsed time, kernel behaviour, cancellation.",
         "technique": "typestate (acquire/release) over CFG + integer-state CFG execution + value numbering (static)",
     },
+    "C14": {
+        "text": "Effect analysis over every function of the package: each store, item store, mutating call and global/nonlocal write is classified by owner (local object, caller's object, client / MPM / security model / module / closure); every shared store must be one of 19 frozen, individually justified, operation-independent instances; lazy construction is test-and-store without an await; the timing cache is written and read without an await in between; one endpoint, protocol object and future per exchange. A positive fixture must be flagged on every run.",
+        "note": "Trusted: ast, the analyser, asyncio's cooperative scheduling. Not decided: the asyncio scheduler itself; equality of the concurrent result with the solo result as a value (follows from non-interference).",
+        "technique": "ownership / effect analysis with a frozen allow-list of shared locations + await-freedom between check and act (static)",
+    },
     "C15": {
         "text": "An abstract interpreter over result kinds (raw kinds taken from the raw client's return annotations) decides for every public wrapper method that nothing returned or yielded contains an x690 value, ObjectIdentifier or VarBind - dictionary keys included; conversions are shown to be element-wise, unfiltered and order preserving; every SNMP value type wraps a builtin.",
         "note": "Trusted: ast, the analyser, the raw client's return annotations (cross-checked against its code by C01-C04/C16). BulkResult is accepted as documented container. Not decided: equality of values (follows from element-wise pythonize of the same raw result).",
@@ -98,6 +103,11 @@ CHECKS = {
         "text": "Kind evaluation of the trap decode closure against the SNMP message schema (every subscript / unpack / attribute must be valid for its kind; MPM selected by the version integer), dominance of the source assignment and of the decode over the single callback scheduling, an unconditional forwarding receiver that never closes its transport, and the community check on every path of the community MPM decode.",
         "note": "Trusted: ast, the analyser, RFC message schema. Not decided: UDP delivery, asyncio's handling of a raising callback/datagram handler, notification contents beyond binding positions.",
         "technique": "schema-kind evaluation + dominance (must-pass-through) + who-may-close (static)",
+    },
+    "C20": {
+        "text": "Every while loop of the resolved program (x690 included) is classified by a progress idiom; the TLV walker's cursor advance is derived by a relative lower-bound analysis of x690's get_value_slice / decode_length on every path; taint from decoded values to range()/repetition/allocation sinks (zero expected, positive fixture); decode paths write no shared state; no eager recursion on the decode path. One genuine defect (indefinite-length branch of x690) is recorded as known finding.",
+        "note": "Trusted: ast, the analyser, CPython facts (len >= 0, unsigned from_bytes >= 0, find >= -1). Not decided: time and memory as a concrete multiple of the datagram size.",
+        "technique": "relative lower-bound abstract interpretation + loop progress-idiom classification + taint + effect analysis (static)",
     },
 }
 
